@@ -10,6 +10,7 @@ in that state; the recorded (pre, op, outcome, result, post) tuples go back to
 TLC (Trace_SymTab.tla), which evaluates SymTab!Verdict on each of them and
 prints one VERDICT line per failing tuple.  Python never judges the property.
 '''
+import concurrent.futures
 import json
 import os
 import shutil
@@ -22,9 +23,9 @@ from pv import c16_world as W
 TIERS = {
     # model cfg, simulate traces, simulate depth
     "quick": {"cfg": "SymTab_quick.cfg", "sim_num": 150, "sim_depth": 20},
-    "thorough": {"cfg": "SymTab_thorough.cfg", "sim_num": 3000, "sim_depth": 25},
+    "thorough": {"cfg": "SymTab_thorough.cfg", "sim_num": 1500, "sim_depth": 30},
 }
-BATCH = 150000
+BATCH = 60000
 
 
 # ------------------------------------------------------------ real execution
@@ -101,41 +102,63 @@ class Pool:
 
 
 def _validate(pool, tmp, cov, workers):
-    '''Feed the tuples to Trace_SymTab.tla in batches.  Returns
-    (verdicts: list of (tuple, clause), divergence counters).'''
-    bad, divs = [], {}
-    div_samples = {}
-    for lo in range(0, len(pool.tuples), BATCH):
+    '''Feed the tuples to Trace_SymTab.tla in batches (run side by side).
+    Returns (verdicts: list of (tuple, clause), divergence counters, samples).'''
+    starts = list(range(0, len(pool.tuples), BATCH))
+    side = max(1, min(3, len(starts)))          # TLC runs side by side
+    each = max(2, workers // side)
+
+    def one(lo):
         part = pool.tuples[lo:lo + BATCH]
-        states, ops, results = {}, {}, {}
+        states, ops, results, names, atoms = {}, {}, {}, {}, {}
 
         def idx(table, key):
             if key not in table:
                 table[key] = len(table) + 1
             return table[key]
+
+        def compact(key):
+            st = json.loads(key)
+            return {"t": [[[[x["id"], idx(names, json.dumps(x["key"], sort_keys=True)),
+                             idx(names, json.dumps(x["name"], sort_keys=True)),
+                             idx(atoms, x["cls"]), idx(atoms, x["ifc"]), x["dep"]]
+                            for x in tab["syms"]],
+                           [[idx(atoms, g["tag"]), g["id"]] for g in tab["tags"]],
+                           tab["args"]] for tab in st["tabs"]],
+                    "i": st["inner"], "d": st["dead"]}
         tuples = [[idx(states, t[0]), idx(ops, t[1]), t[2], idx(results, t[3]),
                    idx(states, t[4])] for t in part]
+        cstates = [compact(k) for k in states]
         path = os.path.join(tmp, f"cases-{lo}.json")
         with open(path, "w") as f:
-            f.write('{"states":[' + ",".join(states) + '],"ops":['
+            f.write('{"names":[' + ",".join(names) + '],"atoms":'
+                    + json.dumps(list(atoms)) + ',"states":'
+                    + json.dumps(cstates, separators=(",", ":")) + ',"ops":['
                     + ",".join(ops) + '],"results":[' + ",".join(results)
                     + '],"tuples":' + json.dumps(tuples, separators=(",", ":"))
                     + "}")
         res = core.run_tlc("Trace_SymTab.tla", "Trace_SymTab.cfg",
-                           env={"PV_CASES": path}, workers=workers, timeout=3000)
+                           env={"PV_CASES": path}, workers=each, timeout=3000)
         if os.environ.get("PV_C16_KEEP"):
             shutil.copy(path, os.environ["PV_C16_KEEP"])
         os.unlink(path)
-        cov["states"] += res.distinct
-        cov["transitions"] += res.generated
         # totality: every tuple has an initial and a terminal state
         if res.distinct != 2 * len(part):
             raise core.MachineryError(
                 f"C16 trace validation did not consume every tuple: "
                 f"{res.distinct} states, expected {2 * len(part)}")
-        for v in res.printed("VERDICT"):
+        return lo, res
+
+    with concurrent.futures.ThreadPoolExecutor(side) as pool_x:
+        done = sorted(pool_x.map(one, starts), key=lambda r: r[0])
+    bad, divs, div_samples = [], {}, {}
+    for lo, res in done:
+        part = pool.tuples[lo:lo + BATCH]
+        cov["states"] += res.distinct
+        cov["transitions"] += res.generated
+        for v in sorted(res.printed("VERDICT"), key=lambda v: v["id"]):
             bad.append((part[v["id"] - 1], v["v"]))
-        for d in res.printed("DIV"):
+        for d in sorted(res.printed("DIV"), key=lambda d: d["id"]):
             tup = part[d["id"] - 1]
             kind = tup[5] + ":" + json.loads(tup[1])["name"] + ":" + d["d"]
             divs[kind] = divs.get(kind, 0) + 1
@@ -202,7 +225,63 @@ def _m_swap_props_partial(case, clause, detail, finding):
     return (new["ifc"], new["dep"]) == (other["ifc"], other["dep"])
 
 
-MATCHERS = {"c16_swap_props_partial": _m_swap_props_partial}
+def _norm(rec):
+    return (rec["c"].lower(), tuple(rec["sfx"]))
+
+
+def _renamable(x):
+    return x["cls"] != "ContainerSymbol" and x["ifc"] not in ("imp", "unres", "arg")
+
+
+def _m_merge_skipped_container(case, clause, detail, finding):
+    '''merge(o, symbols_to_skip) raised SymbolError half-way: a SKIPPED
+    ContainerSymbol of o (or a skipped symbol imported from a container of o)
+    has the name of a symbol of the receiving table that cannot be renamed.
+    check_for_clashes ignores skipped symbols, but containers and their imports
+    are moved regardless, so the impossible rename is only met after other
+    container symbols were added / symbols renamed / imports re-pointed.'''
+    op = case["op"]
+    if clause != "RefusalAtomic" or op["name"] != "merge" or not op["skip"]:
+        return False
+    if case["outcome"] != "raised" or case["result"].get("type") != "SymbolError":
+        return False
+    mine = case["pre"]["tabs"][op["s"] - 1]["syms"]
+    theirs = case["pre"]["tabs"][op["o"] - 1]["syms"]
+    conts = {x["id"] for x in theirs if x["cls"] == "ContainerSymbol"}
+    cause = False
+    for y in theirs:
+        if y["id"] not in op["skip"]:
+            continue
+        for x in mine:
+            if _norm(x["name"]) != _norm(y["name"]) or _renamable(x):
+                continue
+            if y["cls"] == "ContainerSymbol" and x["cls"] != "ContainerSymbol":
+                cause = True
+            if y["ifc"] == "imp" and y["dep"] in conts and x["ifc"] != "imp":
+                cause = True
+    if not cause:
+        return False
+    # the partial effects: containers of o added to s, symbols of s renamed,
+    # imports of o re-pointed - nothing else
+    my_ids = {x["id"] for x in mine}
+    for d in detail["diff"]:
+        if "tags" in d or "args" in d or "inner" in d or "dead" in d:
+            return False
+        if d["table"] == op["s"]:
+            x = d.get("added") or d.get("removed")
+            if not (x["id"] in conts or x["id"] in my_ids):
+                return False
+        elif d["table"] == op["o"]:
+            x = d.get("added") or d.get("removed")
+            if x["ifc"] != "imp":
+                return False
+        else:
+            return False
+    return True
+
+
+MATCHERS = {"c16_swap_props_partial": _m_swap_props_partial,
+            "c16_merge_skipped_container": _m_merge_skipped_container}
 
 
 # ------------------------------------------------------------------- driver
